@@ -126,8 +126,8 @@ def naVal (len : Nat) (signed : Bool) : Int :=
   else if signed then ((2 ^ (len - 1) : Nat) - 1 : Int) else ((2 ^ len : Nat) - 1 : Int)
 
 theorem encodeNumber_none (len : Nat) (signed : Bool) (res ofs : Lit) (hl : len ≠ 1) :
-    encodeNumber .none len signed res ofs = .ok (naVal len signed) := by
-  unfold encodeNumber naVal
+    encodeNumber .none len signed res ofs = .ok (naVal len (effSigned signed ofs)) := by
+  unfold encodeNumber naVal effSigned
   simp only [if_neg hl]
 
 theorem naCode_eq (len : Nat) (signed : Bool) (hl : 2 ≤ len) : naCode len signed = some (naVal len signed) := by
@@ -143,14 +143,14 @@ theorem naTime_eq (len : Nat) (signed : Bool) (hl : 4 ≤ len) : naTime len sign
 
 theorem decodeNumber_none_iff (data off len : Nat) (signed : Bool) (res mn mx ofs : Lit) :
     decodeNumber data off len signed res mn mx ofs = .ok none ↔
-      naCode len signed = some (fInt data off len signed) :=
+      naCode len (effSigned signed ofs) = some (fInt data off len (effSigned signed ofs)) :=
   Dec01.decodeNumber_na data off len signed res mn mx ofs
 
 theorem na_rt (data off len : Nat) (signed : Bool) (res mn mx ofs : Lit) (hl : 2 ≤ len)
     (hdec : decodeNumber data off len signed res mn mx ofs = .ok none) :
-    ctr (naVal len signed) len = Straight.decode_int data off len := by
+    ctr (naVal len (effSigned signed ofs)) len = Straight.decode_int data off len := by
   have h := (decodeNumber_none_iff ..).mp hdec
-  rw [naCode_eq len signed hl] at h
+  rw [naCode_eq len _ hl] at h
   rw [Option.some.inj h]
   exact ctr_fInt ..
 
@@ -165,20 +165,21 @@ theorem naVal_range (len : Nat) (signed : Bool) (hl : 1 ≤ len) :
   · split <;> constructor <;> omega
 
 theorem absent_dec (data off len : Nat) (signed : Bool) (res mn mx ofs : Lit) (n : Int)
-    (hl : 2 ≤ len) (hs : signed = true → 4 ≤ len)
+    (hl : 2 ≤ len) (hs : effSigned signed ofs = true → 4 ≤ len)
     (h : encodeNumber .none len signed res ofs = .ok n)
     (hbits : Straight.decode_int data off len = ctr n len) :
     decodeNumber data off len signed res mn mx ofs = .ok none := by
   rw [encodeNumber_none len signed res ofs (by omega)] at h
-  have hn : n = naVal len signed := (Except.ok.inj h).symm
-  rw [decodeNumber_none_iff, naCode_eq len signed hl]
+  have hn : n = naVal len (effSigned signed ofs) := (Except.ok.inj h).symm
+  rw [decodeNumber_none_iff, naCode_eq len _ hl]
+  generalize effSigned signed ofs = s at hs hn ⊢
   congr 1
-  have hr := naVal_range len signed (by omega)
+  have hr := naVal_range len s (by omega)
   have hc := ctr_of_nonneg _ len hr.1 hr.2
   rw [← hn] at hc
   unfold fInt
   rw [hbits]
-  cases signed
+  cases s
   · simp only [Bool.false_eq_true, if_false]; rw [hc, hn]
   · simp only [if_true]
     have h4 := hs rfl
@@ -197,25 +198,27 @@ def nHi (len : Nat) (signed : Bool) : Int :=
 
 theorem encodeNumber_num (x : Num) (len : Nat) (signed : Bool) (res ofs : Lit) (hres : res.val ≠ 0) :
     encodeNumber (numVal x) len signed res ofs =
-      if rhe (pyDiv (subLit x ofs) (litNum res)) < nLo len signed ∨
-          rhe (pyDiv (subLit x ofs) (litNum res)) > nHi len signed then .error .range
-      else .ok (if signed = true ∧ rhe (pyDiv (subLit x ofs) (litNum res)) < 0
+      if rhe (pyDiv (subLit x ofs) (litNum res)) < nLo len (effSigned signed ofs) ∨
+          rhe (pyDiv (subLit x ofs) (litNum res)) > nHi len (effSigned signed ofs) then .error .range
+      else .ok (if effSigned signed ofs = true ∧ rhe (pyDiv (subLit x ofs) (litNum res)) < 0
                 then ((2 ^ len : Nat) : Int) + rhe (pyDiv (subLit x ofs) (litNum res))
                 else rhe (pyDiv (subLit x ofs) (litNum res))) := by
-  cases x <;> simp only [numVal, encodeNumber, if_neg hres, nLo, nHi] <;> rfl
+  cases x <;> simp only [numVal, encodeNumber, if_neg hres, nLo, nHi, effSigned] <;> rfl
 
 theorem encodeNumber_range_rejected (x : Num) (len : Nat) (signed : Bool) (res ofs : Lit) (hres : res.val ≠ 0)
-    (h : rhe (pyDiv (subLit x ofs) (litNum res)) < nLo len signed ∨
-      nHi len signed < rhe (pyDiv (subLit x ofs) (litNum res))) :
+    (h : rhe (pyDiv (subLit x ofs) (litNum res)) < nLo len (effSigned signed ofs) ∨
+      nHi len (effSigned signed ofs) < rhe (pyDiv (subLit x ofs) (litNum res))) :
     encodeNumber (numVal x) len signed res ofs = .error .range := by
   rw [encodeNumber_num x len signed res ofs hres, if_pos h]
 
 theorem encodeNumber_nearest (x : Num) (len : Nat) (signed : Bool) (res ofs : Lit) (n : Int)
     (hl : 1 ≤ len) (hres : res.val ≠ 0)
     (h : encodeNumber (numVal x) len signed res ofs = .ok n) :
-    ∃ z : Int, |((z : Int) : Rat) - pyDiv (subLit x ofs) (litNum res)| ≤ 1 / 2 ∧ nLo len signed ≤ z ∧ z ≤ nHi len signed ∧
+    ∃ z : Int, |((z : Int) : Rat) - pyDiv (subLit x ofs) (litNum res)| ≤ 1 / 2 ∧
+      nLo len (effSigned signed ofs) ≤ z ∧ z ≤ nHi len (effSigned signed ofs) ∧
       ctr n len = ctr z len ∧ 0 ≤ n ∧ n < ((2 ^ len : Nat) : Int) := by
   rw [encodeNumber_num x len signed res ofs hres] at h
+  generalize effSigned signed ofs = s at h ⊢
   generalize hz : rhe (pyDiv (subLit x ofs) (litNum res)) = z at h
   split at h
   · cases h
@@ -228,12 +231,12 @@ theorem encodeNumber_nearest (x : Num) (len : Nat) (signed : Bool) (res ofs : Li
       · rfl
     · have hP := two_pow_pred len hl
       have hH : 0 < 2 ^ (len - 1) := Nat.two_pow_pos _
-      have hlo : nLo len signed ≤ z := by omega
-      have hhi : z ≤ nHi len signed := by omega
+      have hlo : nLo len s ≤ z := by omega
+      have hhi : z ≤ nHi len s := by omega
       unfold nLo at hlo
       unfold nHi at hhi
       rw [← hn]
-      cases signed
+      cases s
       · simp only [Bool.false_eq_true, if_false, false_and] at hlo hhi ⊢
         split at hhi <;> constructor <;> omega
       · simp only [if_true, true_and] at hlo hhi ⊢
@@ -273,12 +276,12 @@ theorem fInt_in_range (data off len : Nat) (signed : Bool) (hl1 : 1 ≤ len) (hs
 
 /-- once the rounded quotient is the field integer (not NA), the encoder returns the field's bits -/
 theorem encodeNumber_of_rhe (x : Num) (data off len : Nat) (signed : Bool) (res ofs : Lit)
-    (hres : res.val ≠ 0) (hl1 : 1 ≤ len) (hs : signed = true → 4 ≤ len)
-    (hna : naCode len signed ≠ some (fInt data off len signed))
-    (hq : rhe (pyDiv (subLit x ofs) (litNum res)) = fInt data off len signed) :
+    (hres : res.val ≠ 0) (hl1 : 1 ≤ len) (hs : effSigned signed ofs = true → 4 ≤ len)
+    (hna : naCode len (effSigned signed ofs) ≠ some (fInt data off len (effSigned signed ofs)))
+    (hq : rhe (pyDiv (subLit x ofs) (litNum res)) = fInt data off len (effSigned signed ofs)) :
     ∃ n, encodeNumber (numVal x) len signed res ofs = .ok n ∧ ctr n len = Straight.decode_int data off len := by
   rw [encodeNumber_num x len signed res ofs hres, hq]
-  have hr := fInt_in_range data off len signed hl1 hs hna
+  have hr := fInt_in_range data off len _ hl1 hs hna
   rw [if_neg (by omega)]
   refine ⟨_, rfl, ?_⟩
   split
@@ -295,10 +298,10 @@ theorem ite3_some {ε α} (a b : Prop) [Decidable a] [Decidable b] (e1 e2 : ε) 
 
 theorem decodeNumber_some {data off len : Nat} {signed : Bool} {res mn mx ofs : Lit} {v : Num}
     (h : decodeNumber data off len signed res mn mx ofs = .ok (some v)) :
-    naCode len signed ≠ some (fInt data off len signed) ∧
-      v = addLit (mulLit (fInt data off len signed) res) ofs := by
-  simp only [decodeNumber] at h
-  change (if naCode len signed = some (fInt data off len signed) then _ else _) = _ at h
+    naCode len (effSigned signed ofs) ≠ some (fInt data off len (effSigned signed ofs)) ∧
+      v = addLit (mulLit (fInt data off len (effSigned signed ofs)) res) ofs := by
+  rw [Dec01.decodeNumber_eff] at h
+  change (if naCode len (effSigned signed ofs) = some (fInt data off len (effSigned signed ofs)) then _ else _) = _ at h
   split at h
   · cases h
   · rename_i hna
@@ -330,13 +333,13 @@ theorem quot_int (z : Int) (res ofs : Lit) (hf : res.isFloat = false) (hm : 0 < 
 
 theorem number_rt_int (data off len : Nat) (signed : Bool) (res mn mx ofs : Lit) (v : Num)
     (hf : res.isFloat = false) (hm : 0 < res.m) (hof : ofs.isFloat = false)
-    (hl1 : 1 ≤ len) (hl : len ≤ 48) (hs : signed = true → 4 ≤ len)
+    (hl1 : 1 ≤ len) (hl : len ≤ 48) (hs : effSigned signed ofs = true → 4 ≤ len)
     (hdec : decodeNumber data off len signed res mn mx ofs = .ok (some v)) :
     ∃ n, encodeNumber (numVal v) len signed res ofs = .ok n ∧
       ctr n len = Straight.decode_int data off len := by
   obtain ⟨hna, rfl⟩ := decodeNumber_some hdec
   exact encodeNumber_of_rhe _ data off len signed res ofs (Lit.val_int_ne_zero res hf hm) hl1 hs hna
-    (quot_int _ res ofs hf hm hof (fInt_abs data off len signed hl))
+    (quot_int _ res ofs hf hm hof (fInt_abs data off len _ hl))
 
 theorem ofInt_zero_val : (Lit.ofInt 0).val = 0 := by
   simp [Lit.ofInt, Lit.val, Lit.exact]
@@ -348,7 +351,9 @@ theorem ticks_rt_int (data off len : Nat) (signed : Bool) (res mn mx : Lit) (v :
     (hf : res.isFloat = false) (hm : 0 < res.m) (hl : len ≤ 48)
     (hdec : decodeNumber data off len signed res mn mx (Lit.ofInt 0) = .ok (some v)) :
     ctr (rhe (pyDiv v (litNum res))) len = Straight.decode_int data off len := by
-  obtain ⟨-, rfl⟩ := decodeNumber_some hdec
+  have hd := decodeNumber_some hdec
+  rw [Dec01.effSigned_zero] at hd
+  obtain ⟨-, rfl⟩ := hd
   have h := quot_int (fInt data off len signed) res (Lit.ofInt 0) hf hm rfl (fInt_abs data off len signed hl)
   have e : subLit (addLit (mulLit (fInt data off len signed) res) (Lit.ofInt 0)) (Lit.ofInt 0) =
       addLit (mulLit (fInt data off len signed) res) (Lit.ofInt 0) := by
@@ -386,15 +391,22 @@ theorem number_rt_float (data off len : Nat) (signed : Bool) (res mn mx : Lit) (
     (hdec : decodeNumber data off len signed res mn mx (Lit.ofInt 0) = .ok (some v)) :
     ∃ n, encodeNumber (numVal v) len signed res (Lit.ofInt 0) = .ok n ∧
       ctr n len = Straight.decode_int data off len := by
-  obtain ⟨hna, rfl⟩ := decodeNumber_some hdec
-  exact encodeNumber_of_rhe _ data off len signed res _ (Lit.val_float_ne_zero res hf hres) hl1 hs hna
-    (quot_float _ res hf hres (fInt_abs data off len signed hl))
+  have hd := decodeNumber_some hdec
+  rw [Dec01.effSigned_zero] at hd
+  obtain ⟨hna, rfl⟩ := hd
+  refine encodeNumber_of_rhe _ data off len signed res _ (Lit.val_float_ne_zero res hf hres) hl1 ?_ ?_ ?_ <;>
+    rw [Dec01.effSigned_zero]
+  · exact hs
+  · exact hna
+  · exact quot_float _ res hf hres (fInt_abs data off len signed hl)
 
 theorem ticks_rt_float (data off len : Nat) (signed : Bool) (res mn mx : Lit) (v : Num)
     (hf : res.isFloat = true) (hres : pow2 (-1022) ≤ res.exact) (hl : len ≤ 48)
     (hdec : decodeNumber data off len signed res mn mx (Lit.ofInt 0) = .ok (some v)) :
     ctr (rhe (pyDiv v (litNum res))) len = Straight.decode_int data off len := by
-  obtain ⟨-, rfl⟩ := decodeNumber_some hdec
+  have hd := decodeNumber_some hdec
+  rw [Dec01.effSigned_zero] at hd
+  obtain ⟨-, rfl⟩ := hd
   rw [decoded_float _ res hf, litNum_float res hf,
     scale_roundtrip_lit_of_normal _ res hf hres (fInt_abs data off len signed hl)]
   exact ctr_fInt ..
@@ -713,7 +725,8 @@ theorem field_contrib (env : Env) (data : Nat) (f : FieldDef) (l o : Nat) (hok :
             · rw [h]; rfl
             · obtain ⟨x, hx, hxf⟩ := isIntLit'_some h
               rw [hx]; exact hxf
-          exact number_rt_int data o l f.signed r mn mx _ x hf' hres.1.1.1.1 hof hl1 hl48 hs hdec
+          exact number_rt_int data o l f.signed r mn mx _ x hf' hres.1.1.1.1 hof hl1 hl48
+            (fun h => hs (Dec01.effSigned_le _ _ h)) hdec
     · rw [if_neg ht1] at hok
       have hn1 : f.ftype ≠ "NUMBER" := fun h => ht1 (Or.inl h)
       have hn2 : f.ftype ≠ "PGN" := fun h => ht1 (Or.inr h)
@@ -752,7 +765,8 @@ theorem field_contrib (env : Env) (data : Nat) (f : FieldDef) (l o : Nat) (hok :
           rw [encValue_time_none]
           refine ⟨_, rfl, ?_⟩
           rw [naTime_eq l f.signed hl4]
-          exact na_rt data o l f.signed r mn mx _ (by omega) hdec
+          have hna := na_rt data o l f.signed r mn mx _ (by omega) hdec
+          rwa [Dec01.effSigned_zero] at hna
         | some x =>
           subst hraw
           simp only
@@ -790,7 +804,8 @@ theorem field_contrib (env : Env) (data : Nat) (f : FieldDef) (l o : Nat) (hok :
             subst this
             refine ⟨((2 ^ l : Nat) : Int) - 1, rfl, ?_⟩
             rw [← naVal_unsigned, ← hsg]
-            exact na_rt data o l f.signed r mn mx _ hl2 hdec
+            have hna := na_rt data o l f.signed r mn mx _ hl2 hdec
+            rwa [Dec01.effSigned_zero] at hna
           | some x =>
             subst hraw
             obtain ⟨-, rfl⟩ := decodeNumber_some hdec
